@@ -73,7 +73,7 @@ theorem scanRest_length_le (d : Nat) (s : Str) : (scanRest d s).length ≤ s.len
     * `'\0' == *p`: tail argument, appended straight from the source, loop ends;
     * otherwise the token is copied (stack buffer if `arglen ≤ 127`, malloc otherwise — same
       result) and the scan resumes behind the delimiter.
-    Nothing is appended after the loop: a string ending in the delimiter yields no last field. -/
+    (This is the loop only; what happens after it is in `splitWithEmpty`.) -/
 def splitInter (incl : Bool) (d : Nat) (s : Str) : List Str :=
   match s with
   | [] => []
@@ -94,10 +94,19 @@ decreasing_by
 /-- a vector that received no append is the NULL pointer -/
 def ofList (l : List Str) : Vec := if l = [] then none else some l
 
-/-- `parsec_argv_split` -/
+/-- `parsec_argv_split`: `include_empty = 0`, nothing happens after the loop -/
 def split (s : Str) (d : Nat) : Vec := ofList (splitInter false d s)
+
+/-- what `parsec_argv_split_inter` appends after the loop (repair 8e71ed6): with `include_empty`, a
+    non-empty source whose last byte is the delimiter gets one more, empty, field -/
+def trailingField (d : Nat) (s : Str) : List Str := if s.getLast? = some d then [[]] else []
+
 /-- `parsec_argv_split_with_empty` -/
-def splitWithEmpty (s : Str) (d : Nat) : Vec := ofList (splitInter true d s)
+def splitWithEmpty (s : Str) (d : Nat) : Vec := ofList (splitInter true d s ++ trailingField d s)
+
+/-- `parsec_argv_split_with_empty` as it was before 8e71ed6: nothing appended after the loop, a
+    string ending in the delimiter lost its last (empty) field.  Kept to state the finding. -/
+def splitWithEmptyBuggy (s : Str) (d : Nat) : Vec := ofList (splitInter true d s)
 
 /-! ### join -/
 
@@ -132,13 +141,25 @@ def joinRange (v : Vec) (start stop : Nat) (d : Nat) : Str :=
 
 /-- `parsec_argv_delete(&argc, &argv, start, num_to_delete)` → (rc, argc', argv').
     The copy loop `argv[i] = argv[i + num]` for `i ∈ [start, start + suffix_count)` reads ahead of
-    its writes (num > 0), so it reads original entries.  `argc` is decremented by `num_to_delete`
-    whatever was really removed. -/
+    its writes (num > 0), so it reads original entries.  `*argc = i`, the index of the new
+    terminator `start + suffix_count` (repair ecccfcb). -/
 def deleteList (l : List Str) (start num : Nat) : List Str :=
   l.take start ++
     (List.range (l.length - (start + num))).map (fun k => l.getD (start + k + num) [])
 
 def delete (argc : Int) (v : Vec) (start num : Int) : Int × Int × Vec :=
+  match v with
+  | none => (SUCCESS, argc, none)
+  | some l =>
+    if num = 0 then (SUCCESS, argc, some l)
+    else if start > count (some l) then (SUCCESS, argc, some l)
+    else if start < 0 ∨ num < 0 then (BAD_PARAM, argc, some l)
+    else (SUCCESS, ((start.toNat + (l.length - (start.toNat + num.toNat)) : Nat) : Int),
+          some (deleteList l start.toNat num.toNat))
+
+/-- `parsec_argv_delete` as it was before ecccfcb: `(*argc) -= num_to_delete` whatever was really
+    removed.  Kept to state the finding. -/
+def deleteBuggy (argc : Int) (v : Vec) (start num : Int) : Int × Int × Vec :=
   match v with
   | none => (SUCCESS, argc, none)
   | some l =>
